@@ -668,7 +668,7 @@ fn word_list(word: &str) -> Vec<S> {
 
 /// identity of a value for permutation / stability checks: its debug rendering plus integer-ness
 fn ident(v: &Value) -> String {
-    format!("{:?}/{:?}/{}", v, v.kind(), v.is_integer())
+    format!("{:?}/{:?}/{}{}", v, v.kind(), v.is_integer(), if v.is_safe() { "/safe" } else { "" })
 }
 
 fn lower_key(v: &Value, cs: bool) -> Value {
@@ -816,6 +816,63 @@ fn check_filters_on(fc: &mut FilterCheck, xs_spec: &[S], form: &str) {
                     // (a composite key is compared as a list: no case folding inside it)
                     Ok(ys) => check_sorted(fc, "sort", &items, &ys, wrapped, true, false, "attr=k,id"),
                     Err(e) => fc.fail("sort", &e, "attr=k,id".into()),
+                }
+            }
+        }
+    }
+
+    // ---- sort by a dotted attribute path on items some of which lack it (missing → undefined)
+    if wrapped && !xs_spec.is_empty() {
+        let keys: Vec<Value> = xs_spec
+            .iter()
+            .enumerate()
+            .map(|(p, sp)| if p % 3 == 2 || p % 5 == 4 { Value::UNDEFINED } else { build(sp) })
+            .collect();
+        let nested: Vec<Value> = xs_spec
+            .iter()
+            .enumerate()
+            .map(|(p, sp)| {
+                if p % 3 == 2 {
+                    Value::from_pairs([("id", Value::from(p))])
+                } else if p % 5 == 4 {
+                    Value::from_pairs([("a", Value::from(7)), ("id", Value::from(p))])
+                } else {
+                    Value::from_pairs([("a", Value::from_pairs([("b", build(sp))])), ("id", Value::from(p))])
+                }
+            })
+            .collect();
+        for cs in [false, true] {
+            for rev in [false, true] {
+                let kws: Vec<(&'static str, Value)> =
+                    vec![("case_sensitive", Value::from(cs)), ("reverse", Value::from(rev)), ("attribute", Value::from("a.b"))];
+                let opts = format!("cs={} rev={} attr=a.b", cs as u8, rev as u8);
+                match fc.apply("sort", &Value::from(nested.clone()), &[Value::from(kw(&kws))]).and_then(|v| to_vec(&v)) {
+                    Ok(ys) => {
+                        let ids: Vec<usize> = ys.iter().map(|y| y.get_attr("id").ok().and_then(|v| v.as_usize()).unwrap_or(usize::MAX)).collect();
+                        let mut seen = ids.clone();
+                        seen.sort();
+                        if seen != (0..nested.len()).collect::<Vec<_>>() {
+                            fc.fail("sort", "path-perm", format!("{opts} ids={:?}", ids));
+                            continue;
+                        }
+                        let mut ok = true;
+                        let mut stable = true;
+                        for w in ids.windows(2) {
+                            let o = key_cmp(&keys[w[0]], &keys[w[1]], cs);
+                            if if rev { o == Ordering::Less } else { o == Ordering::Greater } {
+                                ok = false;
+                            }
+                            if o == Ordering::Equal && w[0] > w[1] {
+                                stable = false;
+                            }
+                        }
+                        if !ok {
+                            fc.fail("sort", "path-sorted", format!("{opts} ids={:?}", ids));
+                        } else if !stable {
+                            fc.fail("sort", "path-stable", format!("{opts} ids={:?}", ids));
+                        }
+                    }
+                    Err(e) => fc.fail("sort", &e, opts),
                 }
             }
         }
@@ -1349,6 +1406,206 @@ fn run_lk(env: &Environment<'static>, backing: &str, n: usize, ks: &S, ps: &S) -
     Some(format!("{} {}", expected as u8, out))
 }
 
+// ------------------------------------------------------------------------------------------ reverse / first / last on every enumerator shape
+
+#[derive(Debug)]
+struct StrKeysObj;
+impl Object for StrKeysObj {
+    fn repr(self: &Arc<Self>) -> ObjectRepr {
+        ObjectRepr::Map
+    }
+    fn get_value(self: &Arc<Self>, key: &Value) -> Option<Value> {
+        match key.as_str()? {
+            "alpha" => Some(Value::from(1)),
+            "beta" => Some(Value::from(2)),
+            "gamma" => Some(Value::from(3)),
+            _ => None,
+        }
+    }
+    fn enumerate(self: &Arc<Self>) -> Enumerator {
+        Enumerator::Str(&["alpha", "beta", "gamma"])
+    }
+}
+
+#[derive(Debug)]
+struct EmptyObj;
+impl Object for EmptyObj {
+    fn repr(self: &Arc<Self>) -> ObjectRepr {
+        ObjectRepr::Seq
+    }
+    fn enumerate(self: &Arc<Self>) -> Enumerator {
+        Enumerator::Empty
+    }
+}
+
+const REV_SHAPES: [&str; 21] = [
+    "vec", "tuple", "iter", "sized", "once", "deque", "llist", "bset", "hset", "vmap", "hmap", "bstrmap", "hstrmap", "omap",
+    "oseq", "strkeys", "empty", "plain", "string", "safestring", "bytes",
+];
+
+/// the enumerator variant behind each shape: Seq, Iter, RevIter, KeyValueIter, RevKeyValueIter, Values, Str, Empty,
+/// NonEnumerable, plus the string / bytes special cases of `reverse` / `first` / `last`
+fn rev_container(shape: &str, items: &[Value], word: &str) -> Value {
+    use std::collections::{BTreeMap, BTreeSet, HashMap, HashSet, LinkedList, VecDeque};
+    let v = items.to_vec();
+    match shape {
+        "vec" => Value::from(v),
+        "tuple" => Value::from_object(Tuple::new(v)),
+        "iter" => Value::make_object_iterable(v, |v| Box::new(v.iter().filter(|_| true).cloned())),
+        "sized" => Value::make_object_iterable(v, |v| Box::new(v.iter().cloned())),
+        "once" => Value::make_one_shot_iterator(v.into_iter()),
+        "deque" => Value::from(v.into_iter().collect::<VecDeque<Value>>()),
+        "llist" => Value::from_object(v.into_iter().collect::<LinkedList<Value>>()),
+        "bset" => Value::from_object(v.into_iter().collect::<BTreeSet<Value>>()),
+        "hset" => Value::from_object(v.into_iter().collect::<HashSet<Value>>()),
+        "vmap" => Value::from_pairs(v.into_iter().enumerate().map(|(p, k)| (k, Value::from(p)))),
+        "hmap" => Value::from(v.into_iter().enumerate().map(|(p, k)| (k, Value::from(p))).collect::<HashMap<Value, Value>>()),
+        "bstrmap" => Value::from(word.chars().enumerate().map(|(p, c)| (format!("k{c}{p}"), Value::from(p))).collect::<BTreeMap<String, Value>>()),
+        "hstrmap" => Value::from(word.chars().enumerate().map(|(p, c)| (format!("k{c}{p}"), Value::from(p))).collect::<HashMap<String, Value>>()),
+        "omap" => Value::from_object(OMapObj(v.into_iter().enumerate().map(|(p, k)| (Value::from(format!("{p}:{k:?}")), Value::from(p))).collect())),
+        "oseq" => Value::from_object(OSeqObj(v)),
+        "strkeys" => Value::from_object(StrKeysObj),
+        "empty" => Value::from_object(EmptyObj),
+        "plain" => Value::from_object(PlainObj(word.to_string())),
+        "string" => Value::from(word.chars().map(|c| char::from(b'a' + (c as u8 - b'0'))).collect::<String>() + "é"),
+        "safestring" => Value::from_safe_string(word.chars().map(|c| char::from(b'a' + (c as u8 - b'0'))).collect::<String>()),
+        _ => Value::from_bytes(word.bytes().collect()),
+    }
+}
+
+fn run_rev(env: &Environment<'static>, shape: &str, word: &str) -> String {
+    let items: Vec<Value> = word_list_in(word, false).iter().map(build).collect();
+    // one instance (hash based collections iterate in an order of their own), except for the one-shot iterator
+    let proto = rev_container(shape, &items, word);
+    let mk = || if shape == "once" { rev_container(shape, &items, word) } else { proto.clone() };
+    let tmpl = env.template_from_str("").unwrap();
+    let mut state = tmpl.new_state();
+    let mut fc = FilterCheck { state: &mut state, fails: vec![], n: 0 };
+    // the reference order: what iterating the value itself yields (chars for strings, bytes have no iteration)
+    let c0 = mk();
+    let base: Option<Vec<String>> = if shape == "bytes" {
+        None
+    } else if let Some(sv) = c0.as_str().filter(|_| c0.kind() == minijinja::value::ValueKind::String) {
+        Some(sv.chars().map(|ch| ident(&Value::from(ch))).collect())
+    } else {
+        c0.try_iter().ok().map(|it| it.map(|x| ident(&x)).collect())
+    };
+    let strlike = shape == "string" || shape == "safestring";
+    let as_list = |v: &Value| -> Result<Vec<String>, String> {
+        if let Some(sv) = v.as_str().filter(|_| v.kind() == minijinja::value::ValueKind::String) {
+            Ok(sv.chars().map(|ch| ident(&Value::from(ch))).collect())
+        } else {
+            to_vec(v).map(|xs| xs.iter().map(ident).collect())
+        }
+    };
+    match &base {
+        None => {
+            // not iterable (plain object) or bytes: `reverse` of bytes reverses the bytes, anything else must be an error, never a panic
+            match fc.apply("reverse", &mk(), &[]) {
+                Ok(v) if shape == "bytes" => {
+                    let mut b: Vec<u8> = word.bytes().collect();
+                    b.reverse();
+                    if v.as_bytes() != Some(&b[..]) {
+                        fc.fail("reverse", "bytes", format!("out={:?}", v));
+                    }
+                    match fc.apply("reverse", &v, &[]) {
+                        Ok(w) if w.as_bytes() == Some(word.as_bytes()) => {}
+                        other => fc.fail("reverse", "involution", format!("out={:?}", other)),
+                    }
+                }
+                Ok(v) => fc.fail("reverse", "not-iterable-but-ok", format!("out={:?}", v)),
+                Err(e) if e == "panic" => fc.fail("reverse", "panic", String::new()),
+                Err(_) => {}
+            }
+            for name in ["first", "last"] {
+                if let Err(e) = fc.apply(name, &mk(), &[]) {
+                    if e == "panic" {
+                        fc.fail(name, "panic", String::new());
+                    }
+                }
+            }
+        }
+        Some(base) => {
+            let mut rbase = base.clone();
+            rbase.reverse();
+            match fc.apply("reverse", &mk(), &[]).and_then(|v| as_list(&v)) {
+                Ok(r) => {
+                    if r != rbase {
+                        fc.fail("reverse", "is-reversal", format!("base={:?} out={:?}", base, r));
+                    }
+                }
+                Err(e) => fc.fail("reverse", &e, String::new()),
+            }
+            match fc.apply("reverse", &mk(), &[]).and_then(|v| fc.apply("reverse", &v, &[])).and_then(|v| as_list(&v)) {
+                Ok(r) => {
+                    if &r != base {
+                        fc.fail("reverse", "involution", format!("base={:?} out={:?}", base, r));
+                    }
+                }
+                Err(e) => fc.fail("reverse", &e, "twice".into()),
+            }
+            // a reversed view can be walked twice
+            if shape != "once" {
+                if let Ok(v) = fc.apply("reverse", &mk(), &[]) {
+                    let a = as_list(&v);
+                    let b2 = as_list(&v);
+                    if a != b2 {
+                        fc.fail("reverse", "second-walk-differs", format!("first={:?} second={:?}", a, b2));
+                    }
+                }
+            }
+            let undef = ident(&Value::UNDEFINED);
+            match fc.apply("first", &mk(), &[]) {
+                Ok(v) => {
+                    if &ident(&v) != base.first().unwrap_or(&undef) {
+                        fc.fail("first", "is-first", format!("base={:?} out={:?}", base, v));
+                    }
+                }
+                Err(e) => fc.fail("first", &e, String::new()),
+            }
+            match fc.apply("last", &mk(), &[]) {
+                Ok(v) => {
+                    let got = if strlike && !v.is_undefined() { ident(&Value::from(v.as_str().unwrap_or("?"))) } else { ident(&v) };
+                    let want = if strlike { base.last().map(|_| ident(&Value::from(c0.as_str().unwrap().chars().last().unwrap().to_string()))).unwrap_or(undef.clone()) } else { base.last().cloned().unwrap_or(undef.clone()) };
+                    // maps are not sequences: `last` only promises an answer for sequences, iterables and strings
+                    let is_seqlike = matches!(mk().kind(), minijinja::value::ValueKind::Seq | minijinja::value::ValueKind::Iterable | minijinja::value::ValueKind::String);
+                    if is_seqlike && got != want {
+                        fc.fail("last", "is-last", format!("base={:?} out={:?}", base, v));
+                    }
+                }
+                Err(e) => {
+                    let is_map = mk().kind() == minijinja::value::ValueKind::Map;
+                    if e == "panic" || !is_map {
+                        fc.fail("last", &e, String::new());
+                    }
+                }
+            }
+            match fc.apply("list", &mk(), &[]).and_then(|v| as_list(&v)) {
+                Ok(r) => {
+                    if &r != base {
+                        fc.fail("list", "is-iteration-order", format!("base={:?} out={:?}", base, r));
+                    }
+                }
+                Err(e) => fc.fail("list", &e, String::new()),
+            }
+            match fc.apply("length", &mk(), &[]) {
+                Ok(v) => {
+                    if v.as_usize() != Some(base.len()) {
+                        fc.fail("length", "is-count", format!("base={:?} out={:?}", base, v));
+                    }
+                }
+                Err(e) => {
+                    // iterables of unknown length have no length
+                    if e == "panic" || !(shape == "iter" || shape == "once") {
+                        fc.fail("length", &e, String::new());
+                    }
+                }
+            }
+        }
+    }
+    if fc.fails.is_empty() { format!("ok {}", fc.n) } else { format!("FAIL {} {}", fc.n, fc.fails.join(" || ")) }
+}
+
 // ------------------------------------------------------------------------------------------ random nested values
 
 fn rand_scalar(rng: &mut Rng) -> S {
@@ -1489,10 +1746,13 @@ fn rand_batch(rng: &mut Rng, n: usize) -> Vec<S> {
 fn alphabet2() -> Vec<S> {
     vec![
         i(1), fbits(1.0), S::U64(2), s0("a"), s0("A"), s0("b"), S::None, S::F(0x7ff8_0000_0000_0000), fbits(-0.0), i(0),
-        S::Seq(vec![i(1)]), S::Bytes(b"a".to_vec()), S::U128(u128::MAX),
+        S::Seq(vec![i(1)]), S::Bytes(b"a".to_vec()), S::U128(u128::MAX), S::Str("a".into(), 2),
     ]
 }
-const LETTERS: &str = "0123456789abc";
+/// `d` (the safe string "a") only occurs in wrapped items: as a plain item it is `==`, `Equal` and
+/// rendered like the letter `3`, so only an id can tell the two apart
+const LETTERS: &str = "0123456789abcd";
+const PLAIN_LETTERS: &str = "0123456789abc";
 
 fn letter_of(v: &Value, idents: &[String]) -> String {
     let id = ident(v);
@@ -1508,7 +1768,7 @@ fn fv_words(max_len: usize, distinct: bool) -> Vec<String> {
     for _ in 0..max_len {
         let mut next = vec![];
         for w in &cur {
-            for c in LETTERS.chars() {
+            for c in PLAIN_LETTERS.chars() {
                 if distinct && w.contains(c) {
                     continue;
                 }
@@ -1525,7 +1785,7 @@ fn fv_words(max_len: usize, distinct: bool) -> Vec<String> {
 fn fv_word_index(kind: &str) -> usize {
     match kind {
         "sort" | "dictsort" | "sel" => 4,
-        "unique" | "groupby" => 3,
+        "unique" | "groupby" | "sortm" => 3,
         "cin" => 2,
         _ => 1,
     }
@@ -1552,7 +1812,7 @@ impl<'e> Fv<'e> {
             .enumerate()
             .map(|(idx, c)| {
                 let v = build(&self.al[LETTERS.find(c).unwrap()]);
-                if wrap { Value::from_pairs([("k", v), ("id", Value::from(idx))]) } else { v }
+                if wrap { Value::from_pairs([("k", v), ("id", Value::from(idx)), ("g", Value::from(idx % 3))]) } else { v }
             })
             .collect()
     }
@@ -1593,6 +1853,11 @@ impl<'e> Fv<'e> {
                     kws.push(("attribute", Value::from("k")));
                 }
                 self.list_out(self.apply("sort", &[Value::from(self.items(f[4], wrap)), Value::from(kw(&kws))]), wrap)
+            }
+            // fv sortm <cs> <rev> <word>: several attributes, `attribute="g, k"`
+            "sortm" => {
+                let kws: Vec<(&'static str, Value)> = vec![("case_sensitive", Value::from(b(f[1]))), ("reverse", Value::from(b(f[2]))), ("attribute", Value::from("g, k"))];
+                self.list_out(self.apply("sort", &[Value::from(self.items(f[3], true)), Value::from(kw(&kws))]), true)
             }
             "unique" => {
                 let wrap = f[2] == "wrap";
@@ -1830,6 +2095,13 @@ fn main() {
                 writeln!(out, "flist wrap {w}\t{}", run_flist(&env, "wrap", &w)).unwrap();
                 writeln!(out, "flist plain {w}\t{}", run_flist(&env, "plain", &w)).unwrap();
             }
+            // reverse / first / last / list / length on every enumerator shape
+            for w in words(if thorough { 4 } else { 3 }, 7) {
+                let wtxt = if w.is_empty() { "-".to_string() } else { w.clone() };
+                for shape in REV_SHAPES {
+                    writeln!(out, "rev {shape} {wtxt}\t{}", run_rev(&env, shape, &w)).unwrap();
+                }
+            }
             // every lookup entry point, around the small-map fast path threshold, for every backing map type
             let lkk = lk_keys();
             for backing in ["vm", "hm", "bts", "hms", "arc", "obj", "ser"] {
@@ -1873,7 +2145,53 @@ fn main() {
             let mut long_words: Vec<String> = vec![];
             for _ in 0..(if thorough { 600 } else { 80 }) {
                 let len = 4 + rng.below(36) as usize;
-                long_words.push((0..len).map(|_| LETTERS.as_bytes()[rng.below(13) as usize] as char).collect());
+                long_words.push((0..len).map(|_| PLAIN_LETTERS.as_bytes()[rng.below(13) as usize] as char).collect());
+            }
+            // long lists with few distinct keys and many ties between distinguishable items, in random and
+            // adversarial orders (ascending, descending, organ pipe, blocks, alternating)
+            let tie_sets: [&str; 6] = ["01", "34", "89", "0134", "013489", "0123456789abc"];
+            let mut tie_words: Vec<String> = vec![];
+            let n_tie = if thorough { 40 } else { 8 };
+            for set in tie_sets {
+                let cs: Vec<char> = set.chars().collect();
+                for _ in 0..n_tie {
+                    let len = 20 + rng.below(181) as usize;
+                    let rnd: String = (0..len).map(|_| cs[rng.below(cs.len() as u64) as usize]).collect();
+                    let mut asc: Vec<char> = rnd.chars().collect();
+                    asc.sort();
+                    let desc: String = asc.iter().rev().collect();
+                    let pipe: String = asc.iter().step_by(2).chain(asc.iter().rev().step_by(2)).collect();
+                    let alt: String = (0..len).map(|p| cs[p % cs.len()]).collect();
+                    let blocks: String = (0..len).map(|p| cs[(p / 7) % cs.len()]).collect();
+                    tie_words.push(rnd);
+                    if rng.chance(1, 2) {
+                        tie_words.push(asc.iter().collect());
+                        tie_words.push(desc);
+                    } else {
+                        tie_words.push(pipe);
+                        tie_words.push(if rng.chance(1, 2) { alt } else { blocks });
+                    }
+                }
+            }
+            for w in tie_words.iter() {
+                for cs in 0..2 {
+                    for rev in 0..2 {
+                        fv_cases.push(format!("sort {cs} {rev} plain {w}"));
+                        fv_cases.push(format!("sort {cs} {rev} wrap {w}"));
+                        fv_cases.push(format!("sortm {cs} {rev} {w}"));
+                        fv_cases.push(format!("dictsort {cs} {rev} 1 {w}"));
+                    }
+                    fv_cases.push(format!("unique {cs} plain {w}"));
+                    fv_cases.push(format!("unique {cs} wrap {w}"));
+                    fv_cases.push(format!("groupby {cs} - {w}"));
+                }
+                fv_cases.push(format!("min {w}"));
+                fv_cases.push(format!("max {w}"));
+                // the same list with safe strings in place of some plain ones (wrapped items only)
+                let ws: String = w.chars().enumerate().map(|(p, c)| if c == '3' && p % 2 == 1 { 'd' } else { c }).collect();
+                fv_cases.push(format!("sort 0 0 wrap {ws}"));
+                fv_cases.push(format!("sort 0 1 wrap {ws}"));
+                fv_cases.push(format!("unique 0 wrap {ws}"));
             }
             for w in plain_words.iter() {
                 for cs in 0..2 {
@@ -1891,6 +2209,7 @@ fn main() {
                         fv_cases.push(format!("sort {cs} {rev} wrap {}", wd(w)));
                     }
                     fv_cases.push(format!("unique {cs} wrap {}", wd(w)));
+                    fv_cases.push(format!("sortm {cs} 0 {}", wd(w)));
                     fv_cases.push(format!("groupby {cs} - {}", wd(w)));
                     fv_cases.push(format!("groupby {cs} 5 {}", wd(w)));
                 }
@@ -1903,7 +2222,7 @@ fn main() {
                         }
                     }
                 }
-                for arg in LETTERS.chars() {
+                for arg in PLAIN_LETTERS.chars() {
                     for t in ["eq", "ne", "lt", "le", "gt", "ge"] {
                         for inv in 0..2 {
                             fv_cases.push(format!("sel {t} {inv} plain {} {arg}", wd(w)));
@@ -1955,6 +2274,7 @@ fn main() {
                 }
                 "valv" => run_val(&build(&dec(f[1]))),
                 "flist" => run_flist(&env, f[1], if f[2] == "-" { "" } else { f[2] }),
+                "rev" => run_rev(&env, f[1], if f[2] == "-" { "" } else { f[2] }),
                 "batch" | "slicef" => run_runs(&env, f[0], f[1].parse().unwrap(), f[2], f[3] == "1"),
                 "fv" => {
                     let fv = Fv { env: &env, al: alphabet2(), idents: alphabet2().iter().map(|sp| ident(&build(sp))).collect() };
